@@ -289,10 +289,9 @@ def _face_class(orc):
     on_lon0 = bool(np.any(np.minimum(orc["corner_lon"], TWO_PI - orc["corner_lon"]) <= 1e-9))
     if orc["enclosed_n"] or orc["enclosed_s"]:
         return "pole_enclosed_face_with_corner_on_lon0" if on_lon0 else "pole_enclosed_face"
-    sfx = "_touching_equator" if (orc["lat"].min() <= 1e-12 and orc["lat"].max() >= -1e-12) else ""
     if orc["pole_corner"]:
-        return "pole_corner_face" + sfx
-    return "normal_face" + sfx
+        return "pole_corner_face"
+    return "normal_face"
 
 
 def _check_face(box, orc, desc, fails):
@@ -319,7 +318,8 @@ def _check_face(box, orc, desc, fails):
     ncase += 1
     spurious = (lat_max >= half_pi - TOL and not north_ok) or (lat_min <= -half_pi + TOL and not south_ok)
     if spurious:
-        fail("not_tight_spurious_pole_bounds", "no pole inside the face (nor that pole a corner) but the bounds report a pole's "
+        eq = "_touching_equator" if (lat.min() <= 1e-12 and lat.max() >= -1e-12) else ""
+        fail("not_tight_spurious_pole_bounds" + eq, "no pole inside the face (nor that pole a corner) but the bounds report a pole's "
              "latitude" + (" and the full longitude circle" if abs(width_rep - TWO_PI) <= TOL else ""), box_l,
              {"lat": [float(lat.min()), float(lat.max())], "lon": [float(orc["lon_lo"]), float(orc["lon_hi"])]})
     enclosed = orc["enclosed_n"] or orc["enclosed_s"]
